@@ -146,7 +146,7 @@ for op in (1, 2, 3, 4, 5, 6, 7, 10, 12):
     ms_jobs(op, 'release', 'quick')
 ms_jobs(8, 'release', 'quick', ku=1, kc=1, timeout=600)
 ms_jobs(9, 'release', 'quick', ku=1, kc=1, timeout=600)
-ms_jobs(11, 'check', 'quick')
+ms_jobs(11, 'ptr', 'quick')
 ms_jobs(4, 'check', 'quick')
 ms_jobs(6, 'baseline', 'quick')
 ms_jobs(12, 'baseline', 'quick')
@@ -155,7 +155,7 @@ for op in range(1, 13):
     if op != 11:
         ms_jobs(op, 'baseline', 'thorough', timeout=3000, mem=24)
         ms_jobs(op, 'release', 'thorough', ku=3, kc=2, timeout=3000, mem=24)
-ms_jobs(11, 'debug8', 'thorough', timeout=3000, mem=24)
+ms_jobs(11, 'baseline', 'thorough', timeout=3000, mem=24)
 ms_jobs(2, 'debug8', 'thorough', timeout=3000, mem=24)
 ms_jobs(4, 'debug8', 'thorough', timeout=3000, mem=24)
 
@@ -205,3 +205,23 @@ add('adapt-misc-3', ['C09', 'C20'], 'adapt', 'adapt_misc.c', config='release', d
     desc='allocator_(polymorphic_)deleter / deallocator incl. a derived type of 70016 bytes', bounds='array length 1..255')
 add('adapt-misc-4', ['C10', 'C09'], 'adapt', 'adapt_misc.c', config='release', defines=['CASE=4', 'HEAP_SIZE=512'], unwind=8, timeout=300,
     desc='std_allocator equality: same referenced object <=> equal; release through an equal allocator reaches the same leaf', bounds='two allocator objects')
+
+# ---------------------------------------------------------------- low-level allocators: fences, fill, stateless leak counter
+for cfg, tier in (('debug8', 'quick'), ('baseline', 'quick'), ('debug16', 'thorough'), ('release', 'thorough')):
+    for which, wn in ((0, 'lowlevel_allocator<hook functor>'), (1, 'malloc_allocator')):
+        add('ll-node-%s-%d' % (cfg, which), ['C17', 'C01', 'C02', 'C03', 'C09'], 'lowlevel', 'll_step.c', config=cfg,
+            defines=['CASE=1', 'WHICH=%d' % which, 'HEAP_SIZE=128', 'IR_HOOK_MALLOC'], unwind=20, timeout=300, tier=tier,
+            desc='%s: allocate_node, up to two user writes anywhere in fence/node/fence, deallocate_node' % wn,
+            bounds='node size 1..24, alignment 1..16, OS block at 4 residues, write offsets and values symbolic, OS may fail')
+    add('ll-leak-%s' % cfg, ['C15'], 'lowlevel', 'll_step.c', config=cfg, defines=['CASE=2', 'HEAP_SIZE=128', 'IR_HOOK_MALLOC'], unwind=20, timeout=300, tier=tier,
+        desc='stateless leak counter: 1..3 counter objects, 3 symbolic on_allocate/on_deallocate, counters destroyed', bounds='amounts 0..255 each')
+
+# ---------------------------------------------------------------- object-creating helpers with throwing constructors, joint allocations
+SM = {1: ('allocate_unique<elem[]>', ['C20', 'C09', 'C02']), 2: ('allocate_unique<elem>', ['C20', 'C09']), 4: ('allocate_joint<jt> (joint_array<elem> + joint_array<char>)', ['C11', 'C20']),
+      5: ('clone_joint', ['C11', 'C20']), 6: ('joint_ptr move + reset', ['C11', 'C12', 'C20']), 3: ('allocate_shared<elem>', ['C20'])}
+def sm_job(case, tier, nmax, timeout=900, mem=12):
+    add('smart-%d-n%d' % (case, nmax), SM[case][1], 'smart', 'smart_step.c', config='release', defines=['CASE=%d' % case, 'NMAX=%d' % nmax, 'HEAP_SIZE=512'],
+        unwind=20, timeout=timeout, tier=tier, mem_gb=mem, desc='%s with a constructor that throws at a symbolic index (or not at all), leaf allocation may fail' % SM[case][0],
+        bounds='array length 0..%d, failure at every constructor call index or none, joint additional size 0..64, second array 0..16 bytes' % nmax)
+sm_job(1, 'quick', 4); sm_job(2, 'quick', 1); sm_job(4, 'quick', 2); sm_job(6, 'quick', 2)
+sm_job(1, 'thorough', 8, 3000, 24); sm_job(4, 'thorough', 4, 3000, 24); sm_job(6, 'thorough', 4, 3000, 24); sm_job(5, 'thorough', 2, 3600, 24)
